@@ -45,6 +45,9 @@ func (rc *recorder) Out(op string, parts ...[]byte) {
 	}
 }
 
+// operations whose outputs legitimately depend on system entropy
+var nondeterministic = map[string]bool{}
+
 func main() {
 	r := mon.Start("C06", "one deterministic workload (catalogues of the other checks + PRNG inputs from the seed) over the exported operations of curve, curve/scalar, ed25519, cache, ecvrf, x25519, sr25519, merlin, h2c and the exported parts of internal/field, elligator, lattice, scalar128, subtle (+ the Keccak permutation through the graft); canonical outputs folded into one SHA-256 chain per operation; the chains of avx2 / asm (cpu.avx2=off) / purego / force32bit must be equal; non-trivial = one operation name; distinct = operation names")
 	rc := &recorder{r: r, chains: map[string]hash.Hash{}, counts: map[string]int{}}
@@ -58,6 +61,18 @@ func main() {
 	rng := r.Rng("c06")
 	scale := r.Pick(3, 24)
 	workload.All(rc, rng, scale, graftWork)
+	// history independence: the same workload once more in this process (same PRNG stream) must reproduce every
+	// digest - a result that depends on what earlier calls left behind in package-level or shared state shows here
+	rc2 := &recorder{r: r, chains: map[string]hash.Hash{}, counts: map[string]int{}}
+	workload.All(rc2, r.Rng("c06"), scale, graftWork)
+	for op, h := range rc.chains {
+		h2, ok := rc2.chains[op]
+		if !ok || fmt.Sprintf("%x", h.Sum(nil)) != fmt.Sprintf("%x", h2.Sum(nil)) {
+			if !nondeterministic[op] {
+				r.Violate("history-dependence/"+op, "operation "+op+": the second pass of the same workload in one process gives different outputs than the first", map[string]any{"op": op})
+			}
+		}
+	}
 	var ops []string
 	for op, h := range rc.chains {
 		r.Digest(op, fmt.Sprintf("%x", h.Sum(nil)))
